@@ -277,7 +277,7 @@ func OperatorPrecedence(op string) int { return sqlOperatorPrecedence(strings.To
 // NeedsParentheses reports whether e, written as an operand of an operator of strength parentPrec
 // (right = it is the right operand), must be parenthesised to be read back as the same tree.
 func NeedsParentheses(e Expression, parentPrec int, right bool) bool {
-	return operandSQL(e, parentPrec, right) != exprSQL(e)
+	return operandNeedsParens(e, parentPrec, right)
 }
 
 // OnConflictSQL and OnDuplicateKeySQL write the upsert clauses of INSERT with a leading blank
@@ -296,11 +296,20 @@ func BeginsWithExists(e Expression) bool { return beginsWithExists(e) }
 
 func operandSQL(e Expression, parentPrec int, right bool) string {
 	s := exprSQL(e)
+	if operandNeedsParens(e, parentPrec, right) {
+		return "(" + s + ")"
+	}
+	return s
+}
+
+// operandNeedsParens decides from the node alone (nothing is rendered) whether e must be
+// parenthesised as an operand of an operator of strength parentPrec.
+func operandNeedsParens(e Expression, parentPrec int, right bool) bool {
 	p := 9
 	switch c := e.(type) {
 	case *BinaryExpression:
 		if c == nil {
-			return s
+			return false
 		}
 		op := c.Operator
 		if c.CustomOp != nil {
@@ -317,26 +326,24 @@ func operandSQL(e Expression, parentPrec int, right bool) string {
 	case *BetweenExpression, *InExpression, *AnyExpression, *AllExpression:
 		p = 4
 	}
-	if p < parentPrec || (p == parentPrec && (right || parentPrec == 4)) {
-		return "(" + s + ")"
-	}
-	return s
+	return p < parentPrec || (p == parentPrec && (right || parentPrec == 4))
 }
 
 func (u *UnaryExpression) SQL() string {
 	if u == nil {
 		return ""
 	}
-	inner := exprSQL(u.Expr)
-	switch u.Operator {
-	case Not:
+	if u.Operator == Not {
 		// NOT EXISTS has a tree shape of its own (a binary NOT): a unary NOT whose operand begins
 		// with EXISTS keeps its parentheses, otherwise the text would be read as that shape
 		if beginsWithExists(u.Expr) {
-			return "NOT (" + inner + ")"
+			return "NOT (" + exprSQL(u.Expr) + ")"
 		}
 		// the operand of NOT is read at the comparison level: AND / OR below it need parentheses
 		return "NOT " + operandSQL(u.Expr, 3, false)
+	}
+	inner := exprSQL(u.Expr)
+	switch u.Operator {
 	case PGPostfixFactorial:
 		return inner + "!"
 	case Plus:
